@@ -22,6 +22,7 @@ type Config struct {
 	InitPkgs       []string // import-path prefixes whose package init runs
 	TrackFields    []string // "pkg.Type.field" whose accesses become events
 	TrackStructsOf []string // package names: every field of every struct of these packages is tracked
+	TrackHostStructs bool   // whole-struct reads / writes made through reflect on injected (harness-package) structs are accesses
 	TrackAllocs    []string // "func-substring:var" heap locals whose accesses become events
 	TrackMakeMaps  []string // function-name substrings whose MakeMap results are tracked
 	NewestFirst    bool     // thread pick policy (second extraction)
